@@ -20,10 +20,13 @@ def _apply(sources, v):
             except Exception:
                 return None
         return out
-    src = sources.get(v["path"])
-    if src is None or src.count(v["old"]) != 1:
-        return None
-    return {v["path"]: src.replace(v["old"], v["new"])}
+    out = {}
+    for path, old, new in [(v["path"], v["old"], v["new"])] + list(v.get("more") or []):
+        src = out.get(path, sources.get(path))
+        if src is None or src.count(old) != 1:
+            return None
+        out[path] = src.replace(old, new)
+    return out
 
 
 def _seed_overlay(repo, patch_path):
